@@ -95,6 +95,12 @@ SvcDisconnect(s) ==     \* exactly what s registered disappears
     /\ sExc2' = [x \in Items |-> IF sExc2[x] = s THEN None ELSE sExc2[x]]
     /\ UNCHANGED <<run, dupl, db, adv, port, ver>> /\ Res("SvcDisconnect", TRUE) /\ Log("SvcDisconnect", s, "")
 
+(* every connected service goes away at the same moment (a network drop): as if they had left one after the other *)
+SvcLeaveTogether ==
+    /\ Cardinality(conn) >= 2
+    /\ conn' = {}
+    /\ sAgent' = [x \in Items |-> None] /\ sLst' = [x \in Items |-> None] /\ sExc2' = [x \in Items |-> None]
+    /\ UNCHANGED <<run, dupl, db, adv, port, ver>> /\ Res("SvcLeaveTogether", TRUE) /\ Log("SvcLeaveTogether", "", "")
 Next == /\ Len(hist) < MaxOps
         /\ \/ \E n \in Names, k \in Builtin \cup {"busy"} : Add(n, k)
            \/ \E n \in Names, x \in Items : AddSvcType(n, x)
@@ -103,6 +109,7 @@ Next == /\ Len(hist) < MaxOps
            \/ \E s \in Svc, g \in BOOLEAN : SvcConnect(s, g)
            \/ \E s \in Svc, w \in {"agent", "listener", "exc2"}, x \in Items : SvcReg(s, w, x)
            \/ \E s \in Svc : SvcDisconnect(s)
+           \/ SvcLeaveTogether
 Spec == Init /\ [][Next]_vars
 -----------------------------------------------------------------------------
 (* C16 *)
